@@ -30,7 +30,7 @@ ASSUMPTIONS = ['qubit 0 is the most significant bit (documented: "count from lef
                'dense reference limited to n<=7 qubits; larger states pass through unmonitored (counted)']
 DECIDING = ['numqi.sim.state.apply_gate', 'numqi.sim.state.apply_control_n_gate', 'numqi.sim.state.reduce_to_probability',
             'numqi.sim.state.inner_product_psi0_O_psi1', 'numqi.sim.dm.apply_gate', 'numqi.sim.dm.operator_expectation',
-            'Circuit.apply_state', 'Circuit.to_unitary', 'program/to_unitary', 'program/torch-wrapper-forward']
+            'Circuit.apply_state', 'Circuit.to_unitary', 'program/to_unitary', 'program/torch-wrapper-forward', 'history/argument-not-mutated', 'history/edit-result-then-call-again']
 NMAX = 7
 
 
@@ -109,7 +109,7 @@ class Monitors:
                       'sim.state.apply_gate differs from multiplying by the embedded operator', {'n': n, 'targets': tg, 'op': op})
             ctx.check(np.array_equal(to_numpy(c.args[0]), c.snap), 'apply_gate/input-modified', 'apply_gate modified its input state', {'targets': tg})
 
-        ctx.attach(S, 'apply_gate', post=post_apply_gate, pre=pre_copy0)
+        ctx.attach(S, 'apply_gate', post=post_apply_gate, pre=pre_copy0, immutable_args=True)
 
         def post_control(c):
             if c.exc is not None:
@@ -129,7 +129,7 @@ class Monitors:
             ctx.check(np.array_equal(to_numpy(c.args[0]), c.snap), 'apply_control_n_gate/input-modified', 'apply_control_n_gate modified its input state',
                       {'controls': cs, 'targets': tg})
 
-        ctx.attach(S, 'apply_control_n_gate', post=post_control, pre=pre_copy0)
+        ctx.attach(S, 'apply_control_n_gate', post=post_control, pre=pre_copy0, immutable_args=True)
 
         def post_prob(c):
             if c.exc is not None:
@@ -142,7 +142,7 @@ class Monitors:
             ctx.close(c.result, ref, 1e-12 * max(1.0, float(np.abs(to_numpy(q0)).max())**2) * 64, 'reduce_to_probability/born-marginal',
                       'reduce_to_probability differs from the Born marginal', {'n': n, 'keep': sorted(keep)})
 
-        ctx.attach(S, 'reduce_to_probability', post=post_prob)
+        ctx.attach(S, 'reduce_to_probability', post=post_prob, immutable_args=True)
 
         def post_inner(c):
             if c.exc is not None:
@@ -164,7 +164,7 @@ class Monitors:
             ctx.close(c.result, np.array(ref), 1e-11 * scale, 'inner_product/value', '<psi0|prod O|psi1> differs from the embedded product',
                       {'n': n, 'terms': [[tuple(int(x) for x in it[1:]) for it in term] for term in op_list]})
 
-        ctx.attach(S, 'inner_product_psi0_O_psi1', post=post_inner)
+        ctx.attach(S, 'inner_product_psi0_O_psi1', post=post_inner, immutable_args=True)
 
         # ---- density matrix
         def post_dm_apply(c):
@@ -181,7 +181,7 @@ class Monitors:
                       {'n': n, 'targets': tg, 'index_type': type(index).__name__})
             ctx.check(np.array_equal(to_numpy(c.args[0]), c.snap), 'dm.apply_gate/input-modified', 'dm.apply_gate modified its input', {'targets': tg})
 
-        ctx.attach(D, 'apply_gate', post=post_dm_apply, pre=pre_copy0, point='numqi.sim.dm.apply_gate')
+        ctx.attach(D, 'apply_gate', post=post_dm_apply, pre=pre_copy0, point='numqi.sim.dm.apply_gate', immutable_args=True)
 
         def post_dm_expect(c):
             if c.exc is not None:
@@ -195,7 +195,7 @@ class Monitors:
             ctx.close(np.asarray(c.result).reshape(()), np.asarray(ref).reshape(()), self.tol(op, dm), 'dm.operator_expectation/trace',
                       'operator_expectation differs from Tr(rho O_embedded)', {'n': n, 'targets': tg})
 
-        ctx.attach(D, 'operator_expectation', post=post_dm_expect, point='numqi.sim.dm.operator_expectation')
+        ctx.attach(D, 'operator_expectation', post=post_dm_expect, point='numqi.sim.dm.operator_expectation', immutable_args=True)
 
         # ---- Circuit: generic monitor from the circuit's own gate list (the dispatch loop + simulator)
         Circuit = numqi.sim.Circuit
@@ -337,7 +337,10 @@ def wiring_cases(ctx, mon, numqi, n, part=0, nparts=1, exhaustive=True, ncases=0
                 forms = _index_forms(rng, tg)
                 form = forms[int(rng.integers(len(forms)))]
                 if len(cs) == 0:
-                    S.apply_gate(q0, op, form)
+                    if rng.random() < 0.15:
+                        ctx.history_probe('apply_gate', S.apply_gate, q0, op, form)
+                    else:
+                        S.apply_gate(q0, op, form)
                 else:
                     cform = [set(cs), tuple(cs), list(cs)] + ([int(cs[0])] if len(cs) == 1 else [])
                     S.apply_control_n_gate(q0, op, cform[int(rng.integers(len(cform)))], form)
